@@ -683,8 +683,8 @@ func (a *Analysis) checkSumPath(rep *Report, ct *CodecType, pl *PathLayout) {
 	stored := false
 	if trailer != nil && trailer.GoField >= 0 {
 		for idx, st := range storeTargets(pl.Path.Events) {
-			if idx == trailer.GoField && st.Src.Op == "calc" && st.Src.ID == calc.ID {
-				stored = true
+			if src := stripSameWidth(st.Src); idx == trailer.GoField && src != nil && src.Op == "calc" && src.ID == calc.ID {
+				stored = true // (also through a named number type: `type Checksum int32`)
 			}
 		}
 	}
